@@ -4,6 +4,7 @@
    set of keys that were present throughout (no writes run during a scan) and what it yielded.
 
      iterator   terminates; yields exactly the present keys matching the pattern, each exactly once
+     busy       an iteration interleaved with compaction and writes: every key present all the time is yielded
      raw walk   terminates within keys + tables + 2 calls per owner; yields every present key of
                 that partition matching the pattern at least once, nothing that is not present *)
 EXTENDS Integers, Sequences, FiniteSets, TLC, Json
@@ -28,6 +29,13 @@ Scan == /\ Ev.t = "scan" /\ UNCHANGED seq
            ELSE IF Ev.exact /\ Len(Ev.got) # Cardinality(SeqSet(Ev.want)) THEN Fail("a key was yielded more than once (" \o Ev.via \o ")")
            ELSE IF Ev.bound > 0 /\ Ev.calls > Ev.bound THEN Fail("cursor walk needs more calls than keys + tables + 2")
            ELSE Ok
-Next == i <= Len(Trace) /\ i' = i + 1 /\ (Reset \/ Scan)
+\* an iteration whose pages alternate with compaction, writes of new keys, overwrites and deletes of other keys:
+\* `stable` = keys present and untouched all the time, `may` = every key that was stored at some time during the iteration
+BusyScan == /\ Ev.t = "busyscan" /\ UNCHANGED seq
+            /\ IF ~Ev.fin THEN Fail("iteration did not terminate (" \o Ev.via \o ")")
+               ELSE IF ~(SeqSet(Ev.stable) \subseteq SeqSet(Ev.got)) THEN Fail("a key that was present during the whole iteration was not yielded (" \o Ev.via \o ")")
+               ELSE IF ~(SeqSet(Ev.got) \subseteq SeqSet(Ev.may)) THEN Fail("a key that was never stored was yielded (" \o Ev.via \o ")")
+               ELSE Ok
+Next == i <= Len(Trace) /\ i' = i + 1 /\ (Reset \/ Scan \/ BusyScan)
 Spec == i = 1 /\ err = "" /\ seq = 0 /\ [][Next]_vars
 =============================================================================
